@@ -88,6 +88,12 @@ def LexLt : List Int → List Int → Prop
   | _ :: _, [] => False
   | x :: xs, y :: ys => x < y ∨ (x = y ∧ LexLt xs ys)
 
+/-- the printed form of a grid: `dims` are the extents still to be opened, slowest first; `suf` the coordinates
+    already fixed (the slower ones); a level is `(` its `d` sub-levels separated by `,` `)`, the innermost is the cell -/
+def render (v : Pos → String) : List Int → Pos → String
+  | [], suf => v suf
+  | d :: ds, suf => "(" ++ ",".intercalate ((List.range d.toNat).map fun (i : Nat) => render v ds ((i : Int) :: suf)) ++ ")"
+
 instance : (mn sp p : Pos) → Decidable (InBox mn sp p)
   | [], [], [] => isTrue trivial
   | m :: ms, s :: ss, x :: xs =>
